@@ -87,7 +87,9 @@ def real_inputs(job):
             c, t, loader = sr.set_depending_on_option(opts)
         else:
             tab = pd.read_csv("data/no_food_trade/computer_readable_combined.csv")
-            row = tab[tab["iso3"] == job["cc"]].iloc[0]
+            # the row as the by-country loop hands it on (iterrows: plain Python numbers; a numpy population would turn the
+            # intake-cap comparison `number >= LP expression` into numpy.bool_ and the constraint would be lost)
+            row = [r for _, r in tab.iterrows() if r["iso3"] == job["cc"]][0]
             c, t, loader = sr.set_depending_on_option(opts, country_data=row)
         p = Parameters()
         out = p.compute_parameters_first_round(c, t, loader)
@@ -134,7 +136,7 @@ def real_pairs(job):
 
     z0 = z_of(copy.deepcopy(c), copy.deepcopy(t))
     if z0 is None:
-        return pairs
+        raise RuntimeError("the unperturbed inputs of %s %s could not be solved" % (job["cc"], job.get("preset")))
     N = c["NMONTHS"]
     need = c["BILLION_KCALS_NEEDED"]
     months = sorted(rng.sample(range(N), 3))
